@@ -205,6 +205,10 @@ def run_kani(src, harnesses, log, harness_timeout=300, extra=None, overall_timeo
         cmd += extra
     for h in harnesses:
         cmd += ["--harness", h]
+    # never trust cached artifacts of the crate under verification (dependencies stay cached)
+    import glob
+    for fp in glob.glob(os.path.join(kani_target_dir(), "kani", "*", "debug", ".fingerprint", "svgbob-*")):
+        shutil.rmtree(fp, ignore_errors=True)
     env = {"VERIF_THOROUGH": "1"} if thorough else None
     if not thorough:
         ENV.pop("VERIF_THOROUGH", None)
